@@ -9,6 +9,10 @@ VK_NOTE = ("trusted: the virtual kernel model (vk/kernel.hpp, vk/ops.hpp; bound 
            "oracle; the programs are the unmodified binaries built from /repo's working tree by its own Makefile")
 DAEMON_NOTE = VK_NOTE + "; spawners are controller scripts on the daemon's pipes (their own code is covered by C09/C11/C18), time is a virtual clock"
 CHECKS = {
+ "C14": dict(engine="VK", category="model_checking", design_ref="4/C14",
+             technique="bounded-exhaustive enumeration of failure texts and recipients through the real addbounce() (paragraph-integrity invariant), and deviation-bounded exploration of bounce chains on the real qmail-send/qmail-clean/qmail-queue under the virtual kernel (every subset/order of failing recipients, hostile text, expiry, sender forms, virtual/catch-all domains, failing bounces, crash) with every daemon-queued notice parsed and checked",
+             text="Paragraph integrity must hold for attacker-chosen text: every text of the bounded alphabet is executed; loop freedom and addressing are properties of the whole chain of generated messages, which is followed on the real binaries until the queue is empty for every failing subset within the bound.",
+             note=DAEMON_NOTE + "; " + SEQ_NOTE),
  "C02": dict(engine="VK", category="model_checking", design_ref="4/C02",
              technique="preemption-bounded exhaustive interleaving of 1-3 real qmail-queue processes with the real qmail-send and qmail-clean (and the daemon's own bounce injections) at system-call granularity under a virtual kernel with lowest-free inode allocation, plus every crash point of every process with restart, failing/hung injections with the clock moved past 24 h and 36 h, a second daemon instance, an aged backlog; state-table invariant after every namespace change",
              text="The state table is an invariant over all reachable filesystem states of four cooperating programs; every interleaving within the preemption bound and every crash point is executed on the real binaries and the S1-S5 table, the name=inode rule, number uniqueness and the 36-hour rule are evaluated after every step.",
